@@ -26,6 +26,19 @@ CHECKS = {
          "(the init_options docstring disagrees with them, see DESIGN F17). Quick replays a seeded 8000-sample of the exhaustive "
          "2-op histories, thorough all of them. Missing numba simulated via pipeflow_setup.numba_installed.",
     technique="TLA+ spec (PPOptions/MC_Options) model-checked with TLC + TLC-generated call histories replayed into init_options + trace validation (Trace_Options)"),
+ "C05": dict(
+    level="model_checking",
+    text="(1) The Newton driver (iteration budget, tolerance test, damping ladder, step rejection) is transcribed into TLA+ "
+         "(PPSolver/MC_Driver) and TLC checks the C05 driver clauses over all bounded observation sequences; (2) every behaviour of "
+         "that model is replayed into the real newton_raphson with a scripted solve function; (3) all MC_Hist call histories "
+         "(<=3 ops: four modes x budgets x damping x tolerance sets, break/repair) are run on real nets; hook events, outcome, "
+         "converged flag and result tables of every call are validated by the trace specification Trace_Solver.",
+    design_ref="DESIGN.md 5 C05",
+    note="Trusted: the guarded hook in pipeflow.newton_raphson; projection of float errors to order-preserving ordinals relative to the "
+         "documented tolerance option of each quantity. Bounds: driver model 2 variables, <=3 (quick) / 4 (thorough) iterations, error "
+         "ordinals {NaN, below, above(2)}; histories <=3 ops exhaustive (quick: seeded sample of 700 per net), thorough + simulated 5-op histories. "
+         "mode='heat' without stored hydraulics is treated as a usage error (any exception class) whose failure postconditions are still checked.",
+    technique="TLA+ driver/history models (PPSolver, MC_Driver, MC_Hist) model-checked with TLC + replay into newton_raphson/pipeflow + trace validation (Trace_Solver)"),
 }
 NA_REASON = "check not built yet in this round (work in progress; see DESIGN.md section 5 for the planned decision procedure)"
 
